@@ -780,6 +780,10 @@ func (r *Resolver) Gen(rnd *Rand, t schemagen.TypeExpr, depth int) (*Value, erro
 	if depth > 4 { // keep recursive types finite: prefer the first (usually empty) constructor and empty containers
 		c = ctors[0]
 	}
+	if len(ctors) > 1 && depth <= 4 && rnd.Intn(8) == 0 {
+		// a variant whose payload is entirely empty: JSON may then name the variant without any "value"
+		return r.zeroOf(c, t.Args, 0), nil
+	}
 	return r.genBody(rnd, c, t.Args, depth)
 }
 
